@@ -5,6 +5,8 @@ import CapyV.Driver.C27
 import CapyV.Driver.C22
 import CapyV.Driver.C23
 import CapyV.Driver.Core
+import CapyV.Driver.C26
+import CapyV.Driver.C07
 open CapyV.Driver
 
 def dispatch (line : String) : String :=
@@ -16,6 +18,8 @@ def dispatch (line : String) : String :=
   | "C22" :: args => c22 args
   | "C23" :: args => c23 args
   | "CORE" :: args => core args
+  | "C26" :: args => c26 args
+  | "C07" :: args => c07 args
   | _ => "bad-op"
 
 partial def loop (h : IO.FS.Stream) (out : IO.FS.Stream) : IO Unit := do
